@@ -139,6 +139,26 @@ def converse(ch, ctx, kind, twin=False):
         r = native_specs.WorkflowSpec(d).inspect()
         if not any("start" in e.get("message", "") for e in r.get("semantics", [])):
             fail("no-start-not-reported", "inspection accepts a definition without a start task: %s" % r, d, which=which)
+    elif kind == "back-edge":
+        form = FORMS[ch.pick("form", 8)]
+        where = ch.pick("where", 4)
+        d = {"version": 1.0, "vars": [{"n": 0}], "tasks": {
+            "init": {"action": "core.noop", "next": [{"do": "work"}]},
+            "work": {"action": "core.noop", "next": [{"when": "<% succeeded() %>", "do": "check"}, {"when": "<% failed() %>", "do": "work"}]},
+            "check": {"action": "core.noop", "next": [{"when": "<% ctx().n < 2 %>", "publish": [{"n": "<% ctx().n + 1 %>"}], "do": "work"}, {"when": "<% ctx().n >= 2 %>", "do": "done"}]},
+            "done": {"action": "core.noop"},
+        }}
+        if where == 0:
+            d["tasks"]["work"]["next"][1]["when"] = form
+        elif where == 1:
+            d["tasks"]["work"]["next"][1]["publish"] = [{"q": form}]
+        elif where == 2:
+            d["tasks"]["check"]["next"][0]["when"] = form
+        else:
+            d["tasks"]["check"]["next"][0]["publish"] = [{"n": form}]
+        r = native_specs.WorkflowSpec(d).inspect()
+        if not any("zz" in e.get("message", "") and "referenced before assignment" in e.get("message", "") for e in r.get("context", [])):
+            fail("unassigned-not-reported", "inspection accepts the reference %r on a transition back into an already inspected task (site %d): %s" % (form, where, r), d, form=form, site=where)
     elif kind == "branch-leak":
         # a variable published only on a parallel branch is referenced where nothing upstream assigns it;
         # no input/vars, so start tasks begin with an empty set of assigned variables
@@ -217,7 +237,7 @@ def forward(ch, ctx, steps=5, twin=False, order=False, bits=False, fanout="pairs
 
 def obligations(tier):
     obs = []
-    for kind in ("unassigned", "self-reference", "branch-leak", "grammar", "undefined-task", "reserved-name", "no-start"):
+    for kind in ("unassigned", "self-reference", "back-edge", "branch-leak", "grammar", "undefined-task", "reserved-name", "no-start"):
         o = ob("C15", "e2c.converse." + kind, "vt.harness.C15:converse", {"kind": kind}, timeout=900)
         o["antecedents"] = ["c15_mutants"]
         obs.append(o)
